@@ -1,25 +1,31 @@
 --------------------------- MODULE Sched_DelayHist ---------------------------
 (* C19 history part, behaviour generation (tlc -simulate): random walks of      *)
-(* DelayHist whose time steps land exactly on / one nanosecond before / after   *)
-(* the moment the time delay has passed; each walk is written as one schedule.  *)
+(* DelayHist (configuration drawn from CONFIGS) whose time steps land exactly   *)
+(* on / one nanosecond before / after the moment the time delay has passed;     *)
+(* each walk is written as one schedule.                                        *)
 EXTENDS DelayHist, TLC, Json, Sequences
 
-CONSTANTS Depth, OutDir
+CONSTANTS CONFIGS, Depth, OutDir
 
-VARIABLES S, sched
+VARIABLES cfg, S, sched
 
-Init == S = InitState /\ sched = <<>>
+TD == TDof(cfg)
+P  == Pof(cfg)
+BD == BDof(TD, P)
+
+Init == cfg \in CONFIGS /\ S = InitState /\ sched = <<>>
 
 \* prefer steps that end next to a boundary of either delay
-Near(S0) == { a \in Acts(S0) : LET r == Step(S0, a).S IN r.t \in {TD - 1, TD, TD + 1} \/ r.h \in {BD - 1, BD, BD + 1} }
-Pick(S0) == IF Near(S0) # {} /\ RandomElement(1..4) # 1 THEN RandomElement(Near(S0)) ELSE RandomElement(Acts(S0))
+Near(S0) == { a \in Acts(TD, S0) : LET r == Step(TD, P, S0, a).S IN r.t \in {TD - 1, TD, TD + 1} \/ r.h \in {BD - 1, BD, BD + 1} }
+Pick(S0) == IF Near(S0) # {} /\ RandomElement(1..4) # 1 THEN RandomElement(Near(S0)) ELSE RandomElement(Acts(TD, S0))
 
 Next == /\ Len(sched) < Depth
+        /\ cfg' = cfg
         /\ \E a \in { Pick(S) } :
-              /\ S' = Step(S, a).S
+              /\ S' = Step(TD, P, S, a).S
               /\ sched' = Append(sched, a)
               /\ (Len(sched') = Depth =>
                     JsonSerialize(OutDir \o "/s" \o ToString(TLCGet("stats").traces) \o "_" \o ToString(RandomElement(1..1000000)) \o ".json",
                                   [td |-> TD, p |-> P, acts |-> sched']))
-Spec == Init /\ [][Next]_<<S, sched>>
+Spec == Init /\ [][Next]_<<cfg, S, sched>>
 =============================================================================
